@@ -28,7 +28,7 @@ type c11Baseline struct {
 
 func CheckC11(l *Lab, verifDir string) int {
 	rep := NewReport("C11", l.Tier, l.Seed, "fault_enumeration", verifDir)
-	rep.Rule = "complete enumeration of cells {point of the exchange: before handshake, after each of the four steps, client data / host data / both in flight} x {way of ending: CLOSE_CHANNEL, out-of-order packet, unframeable bytes, FIN / RST of the websocket, FIN / RST of legacy IN, FIN / RST of legacy OUT} x transport (108 cells; the ninth point is a client that stopped reading while the host keeps sending, so that the relay's write is blocked when the tunnel ends), plus a legacy stress in which the OUT connection is dropped at PRNG offsets around the arrival of the IN request, each cell run R times (quick 6, thorough 40) with PRNG pacing and delay points against the race-instrumented real binary. Oracle per tunnel (bounded progress, W=15s): the host connection reaches EOF/RST, every client-facing connection reaches EOF/RST; per cell at quiescence: registry add/del events balance and size is back, no goroutine with a frame in the gateway's protocol/transport packages remains, connection gauges are back at the baseline. non-trivial = the ending was delivered to a live tunnel; distinct = cell x repetition outcome"
+	rep.Rule = "complete enumeration of cells {point of the exchange: before handshake, after each of the four steps, client data / host data / both in flight} x {way of ending: CLOSE_CHANNEL, out-of-order packet, unframeable bytes, FIN / RST of the websocket, FIN / RST of legacy IN, FIN / RST of legacy OUT} x transport (108 cells; the ninth point is a client that stopped reading while the host keeps sending, so that the relay's write is blocked when the tunnel ends), a third of the legacy tunnels also get a refused second RDG_IN_DATA request under their own id before the ending, plus a legacy stress in which the OUT connection is dropped at PRNG offsets around the arrival of the IN request, each cell run R times (quick 6, thorough 40) with PRNG pacing and delay points against the race-instrumented real binary. Oracle per tunnel (bounded progress, W=15s): the host connection reaches EOF/RST, every client-facing connection reaches EOF/RST; per cell at quiescence: registry add/del events balance and size is back, no goroutine with a frame in the gateway's protocol/transport packages remains, connection gauges are back at the baseline. non-trivial = the ending was delivered to a live tunnel; distinct = cell x repetition outcome"
 	rep.SetExhaustive(true)
 	rep.Assume("backends never hang up first; a fired watchdog (15 s, >= 1000x the release time of a correct implementation) is a violation only when the gateway process is alive and answering")
 	var cells []c11Cell
@@ -59,6 +59,7 @@ func CheckC11(l *Lab, verifDir string) int {
 			m.Close()
 			continue
 		}
+		regBase := 0.0
 		for ci, cell := range cells {
 			if skip := rep.ViolationCount() > 30; skip {
 				break
@@ -87,6 +88,9 @@ func CheckC11(l *Lab, verifDir string) int {
 				delivered++
 				rep.Eval(HashStr(kind, cell, r, res.Outcome))
 				rep.Count("tunnels", 1)
+				if res.DupIn != "" {
+					rep.Count("duplicate_in_requests/"+res.DupIn, 1)
+				}
 				for i, k := range res.Keys {
 					rep.Violate(fmt.Sprintf("C11/%s/%s/%s/%s", k, cell.Transport, cell.Ending, cell.PointName), res.Problems[i],
 						map[string]any{"cell": cell, "config": kind, "result": res})
@@ -120,6 +124,21 @@ func CheckC11(l *Lab, verifDir string) int {
 						dels[ev.Tunnel]++
 					}
 				}
+			}
+			// ... and its size (reported under the registry's own lock) is back at what it
+			// was when no tunnel existed
+			lastSize := -1.0
+			for i := len(evs) - 1; i >= 0 && lastSize < 0; i-- {
+				if evs[i].Kind == "registry" {
+					if v, ok := evs[i].Raw["size"].(float64); ok {
+						lastSize = v
+					}
+				}
+			}
+			if lastSize > regBase {
+				rep.Violate(fmt.Sprintf("C11/registry-not-emptied/%s/%s/%s", cell.Transport, cell.Ending, cell.PointName),
+					fmt.Sprintf("all tunnels of the cell have ended, the connection registry still holds %v entries (it held %v before)", lastSize, regBase), map[string]any{"cell": cell, "results": results})
+				regBase = lastSize
 			}
 			for tn, a := range adds {
 				if dels[tn] != a {
@@ -182,6 +201,7 @@ type c11Result struct {
 	Problems     []string `json:"problems,omitempty"`
 	Keys         []string `json:"-"`
 	Inconclusive string   `json:"inconclusive,omitempty"`
+	DupIn        string   `json:"duplicate_in_request,omitempty"`
 	Trace        []TLog   `json:"trace_tail,omitempty"`
 }
 
@@ -279,6 +299,20 @@ func c11Run(m *MultiFixture, cell c11Cell, seed int64) *c11Result {
 		time.Sleep(time.Duration(rnd.Intn(2000)) * time.Microsecond)
 	} else if rnd.Intn(2) == 0 {
 		time.Sleep(time.Duration(rnd.Intn(500)) * time.Microsecond)
+	}
+	if cell.Transport == "legacy" && rnd.Intn(3) == 0 {
+		// a second RDG_IN_DATA request under the id of the live tunnel: refused, and
+		// the tunnel's bookkeeping must be unaffected when it ends
+		x, xres, _ := OpenLegacy(m.GW.Addr, LegacyOpts{ConnID: res.ConnID, SkipOut: true, InHeaders: u.Headers})
+		st := 0
+		if xres != nil && xres.In != nil {
+			st = xres.In.Status
+		}
+		res.DupIn = fmt.Sprintf("status=%d", st)
+		if x != nil {
+			x.WaitEnd(2*time.Second, false)
+			x.Close()
+		}
 	}
 	// the ending
 	localEnd := map[string]bool{}
